@@ -1,6 +1,6 @@
 """Subprocess worker for C09: run under one PYTHONHASHSEED, print digests of everything generated.
 
-usage: python -m harness.detrun <models.json>   (list of {"id", "text", "heavy": bool})
+usage: python -m harness.detrun <models.json>   (list of {"id", "text", "heavy": bool}; handled in an order derived from the seed)
 prints one JSON object: {id: {"numpy": sha, "numpy_ru": sha, "c": sha, "jax": sha, "state_index": {...}, ... , "iters": [...]}}
 """
 from __future__ import annotations
@@ -20,6 +20,12 @@ def sha(s: str) -> str:
 def main():
     from . import gx, traces
     models = json.load(open(sys.argv[1]))
+    # every process handles the models in its own order (seed 0: as listed): what is generated for a text must not
+    # depend on what the process handled before either
+    order = int(os.environ.get("PYTHONHASHSEED", "0") or 0)
+    if order:
+        import random
+        random.Random(order).shuffle(models)
     out = {}
     for m in models:
         rec = {}
